@@ -724,3 +724,55 @@ def r42_dump_arity(ctx):
                   % (rbase, rper, hbase, hper),
                   'row `%s` has %d fields and %s per-candidate part; the header has %d base columns, rule columns and %d + rule '
                   'columns per candidate' % (stmt_text(row), rbase, 'no' if rper is None else 'a %d-field' % rper, hbase, hper))
+
+
+# ---------------------------------------------------------------------------
+# R57 what is recorded under a name is the quantity of that name
+# ---------------------------------------------------------------------------
+
+R57_TABLE = {
+    # function qualname: {recorded key: canonical source (ctext normal form of the right-hand side)}
+    'droop.record.ElectionRecord.action': {'quota': 'E.quota', 'votes': 'sum([c.vote for c in E.C.eligible()], E.V0)', 'cstate': 'E.C.cState()',
+                                           'tag': 'tag', 'msg': 'msg', 'round': 'E.round'},
+    'droop.record.ElectionRecord._fill': {'seats': 'E.nSeats', 'nballots': 'E.nBallots', 'quota': 'E.quota', 'title': 'E.title',
+                                          'cids': "E.C.cidList('all')", 'ecids': "E.C.cidList('eligible')", 'cdict': 'E.C.cDict()',
+                                          'arithmetic_name': 'E.V.name', 'rule_name': 'E.rule.name', 'method': 'E.rule.method'},
+    'droop.rules.electionmethods.MethodMeek.action': {'residual': 'self.E.residual', 'surplus': 'self.E.surplus', 'omega': 'self.omega'},
+    'droop.rules.electionmethods.MethodWIGM.action': {'nt_votes': 'self.E.exhausted', 'surplus': 'self.E.surplus'},
+    'droop.rules.qpq.Rule.action': {'votes': 'self.E.votes'},
+    'droop.candidate.Candidate.as_dict': {'cid': 'self.cid', 'ballot_order': 'self.order', 'tie_order': 'self.tieOrder', 'name': 'self.name', 'nick': 'self.nick',
+                                          'state': 'self.state', 'code': 'self.code()', 'vote': 'self.vote', 'kf': 'self.kf', 'quotient': 'self.quotient',
+                                          'pending': 'self.pending'},
+}
+
+
+def r57_recorded_sources(ctx):
+    """every figure the record carries is read from the election field of that meaning when the action is recorded: a `quota` that is
+    E.quota, a `surplus` that is E.surplus, a per-candidate `vote` that is the candidate's tally ... (the renderings, and every
+    conservation statement about recorded snapshots, read these keys)"""
+    R = 'R57'
+    from .common import ctext, ctext_ref
+    n = 0
+    for qn, table in sorted(R57_TABLE.items()):
+        f = ctx.repo.funcs.get(qn)
+        need(f is not None, 'R57: %s not found' % qn)
+        got = {}
+        for x in f.own_nodes():
+            if isinstance(x, ast.Assign) and isinstance(x.targets[0], ast.Subscript) and const_str(x.targets[0].slice) is not None:
+                got.setdefault(const_str(x.targets[0].slice), []).append((x.value, x))
+            if isinstance(x, ast.Call) and isinstance(x.func, ast.Name) and x.func.id == 'dict' and x.keywords:
+                for k in x.keywords:
+                    if k.arg:
+                        got.setdefault(k.arg, []).append((k.value, x))
+        for key, want in sorted(table.items()):
+            n += 1
+            vals = got.get(key, [])
+            # self.E.x and E.x are the same path; compare through ctext (aliases -> paths), and accept the `self.E.` spelling
+            pl = [p_ for p_ in f.params if p_ not in ('self', 'cls')]
+            wants = {ctext_ref(want, pl), ctext_ref(want.replace('self.E.', 'E.'), pl)}
+            ok = len(vals) >= 1 and all(ctext(ctx, f, v) in wants or ctext(ctx, f, v).replace('self.E.', 'E.') in wants for v, st in vals)
+            ctx.check(ok, R, vals[0][1] if vals else f.node, f, "what is recorded as '%s' in %s is %s" % (key, f.name, want),
+                      '%s' % '; '.join(unparse(v) for v, st in vals)[:120],
+                      "'%s' is recorded from `%s`, not from %s: the record, the renderings and every check on recorded totals see another quantity"
+                      % (key, '; '.join(unparse(v) for v, st in vals)[:120] if vals else '<nothing>', want), nontrivial=False)
+    ctx.floor(R, 'recorded keys', n, 30)
